@@ -259,7 +259,7 @@ class UniformScale(DiscreteAffine, Similarity):
         s : `float`
             The scale across each axis.
         """
-        return np.asarray(self.scale)
+        return np.atleast_1d(self.scale)
 
     def _from_vector_inplace(self, p):
         r"""
